@@ -2,7 +2,10 @@
 
 import re
 from base64 import a85decode
+from binascii import Error as BinasciiError
 from binascii import unhexlify
+
+from pdfminer.pdfexceptions import PDFValueError
 
 start_re = re.compile(rb"^\s*<?\s*~\s*")
 end_re = re.compile(rb"\s*~\s*>?\s*$")
@@ -24,7 +27,10 @@ def ascii85decode(data: bytes) -> bytes:
     """
     data = start_re.sub(b"", data)
     data = end_re.sub(b"", data)
-    return a85decode(data)
+    try:
+        return a85decode(data)
+    except ValueError as e:
+        raise PDFValueError("Invalid ASCII85 data: %s" % e)
 
 
 bws_re = re.compile(rb"\s")
@@ -43,6 +49,10 @@ def asciihexdecode(data: bytes) -> bytes:
     idx = data.find(b">")
     if idx != -1:
         data = data[:idx]
-        if idx % 2 == 1:
-            data += b"0"
-    return unhexlify(data)
+    if len(data) % 2 == 1:
+        # an odd number of digits (also when the EOD marker is missing)
+        data += b"0"
+    try:
+        return unhexlify(data)
+    except BinasciiError as e:
+        raise PDFValueError("Invalid ASCIIHex data: %s" % e)
